@@ -912,3 +912,85 @@ fn m7_concurrent_flow_id_allocation() {
     });
     report("m7_concurrent_flow_id_allocation");
 }
+
+/// Flow-id generator that can be preempted in the middle of a draw (any user-supplied generator
+/// can: it runs under the table's write lock in `insert_new_flow`).
+struct PreemptibleRng(u32);
+impl rand::TryRng for PreemptibleRng {
+    type Error = core::convert::Infallible;
+    fn try_next_u32(&mut self) -> Result<u32, Self::Error> {
+        thread::yield_now();
+        self.0 += 1;
+        Ok(self.0)
+    }
+    fn try_next_u64(&mut self) -> Result<u64, Self::Error> {
+        self.try_next_u32().map(u64::from)
+    }
+    fn try_fill_bytes(&mut self, dst: &mut [u8]) -> Result<(), Self::Error> {
+        dst.fill(0);
+        Ok(())
+    }
+}
+
+/// 25. the connection task processes an `Acknowledge` for an ESTABLISHED flow while another thread is
+/// inside `insert_new_flow` (a new stream / bind request drawing its id under the table's write lock)
+/// and the flow's writer is parked on credit: the grant reaches the writer (it is woken and obtains
+/// the unit), and the task answers nothing (an `Acknowledge` for a known flow is never answered with
+/// a `Reset`), whatever the table's lock is doing at that moment.
+#[test]
+fn m25_task_acknowledge_vs_flow_id_allocation() {
+    model(|| {
+        let (mux, taskdata) = Multiplexor::new_detailed::<NoWs, std::time::Instant>(
+            NoWs,
+            crate::config::Options::new(),
+            PreemptibleRng(6),
+        );
+        let crate::task::TaskData {
+            task,
+            mut tx_msg_rx,
+            dropped_flows_rx: _dropped_flows_rx,
+        } = taskdata;
+        // flow 5 is established, its writer has no credit
+        let (stream, data) = task.verif_new_stream_shared(5, 0);
+        task.flows.write().insert(5, FlowSlot::Established(data));
+        let mux = Arc::new(mux);
+        let m2 = mux.clone();
+        let opener = thread::spawn(move || {
+            let (tx, _rx) = tokio::sync::oneshot::channel();
+            m2.insert_new_flow(FlowSlot::Requested(tx))
+        });
+        let writer = thread::spawn(move || {
+            let got = writer_obtains(&stream, 1);
+            (got, stream)
+        });
+        // the task takes `Acknowledge(5, 1)` out of its socket
+        let r = {
+            let fut = task.verif_process_frame(crate::frame::Frame::new_acknowledge(5, 1));
+            let mut fut = core::pin::pin!(fut);
+            let waker = Waker::noop();
+            let mut cx = Context::from_waker(waker);
+            match core::future::Future::poll(fut.as_mut(), &mut cx) {
+                Poll::Ready(r) => r,
+                Poll::Pending => panic!("handling an Acknowledge never waits"),
+            }
+        };
+        assert!(r.is_ok(), "handling an Acknowledge of an established flow failed: {r:?}");
+        let (got, stream) = writer.join().expect("writer");
+        assert_eq!(got, [true], "the writer did not get the unit the peer granted");
+        let id = opener.join().expect("opener");
+        assert_ne!(id, 0);
+        let mut resets = 0;
+        while let Ok(m) = tx_msg_rx.try_recv() {
+            if let Message::Binary(b) = m {
+                if b.first().is_some_and(|x| x & 0x0f == 2) {
+                    resets += 1;
+                }
+            }
+        }
+        assert_eq!(resets, 0, "an Acknowledge for an established flow was answered with a Reset");
+        outcome(format!("id7={}", u8::from(id == 7)));
+        drop(stream);
+        drop(task);
+    });
+    report("m25_task_acknowledge_vs_flow_id_allocation");
+}
